@@ -120,3 +120,175 @@ Qed.
 
 Example c15_nonvacuous : loc_text (4, 10) = [108;105;110;101;32;53;32;99;111;108;117;109;110;32;49;49].
 Proof. vm_compute. reflexivity. Qed.
+
+(* ================================================================================================================
+   STATEMENT LEVEL (audit follow-up): the `node` and `edge` STATEMENTS of both interpreters, not the helper composites.
+   node_dbg_attrs cfg text vloc mn = [variable-name attr := text] ++ [location attr := "line R column C" of vloc] ++
+   [match-node attr := mn], each entry only if configured (Proofs/DebugStmt.v); edge_dbg_attrs cfg l = [location attr :=
+   "line R column C" of l] if configured; first_full_match m i = first node of the full-match capture;
+   match_available: the match-node attribute is not configured, or the match has a full-match node (always the case in a
+   run: exec_stanza / lexec_stanza panic otherwise). *)
+From TSG Require Import Proofs.DebugStmt.
+
+(* strict `node x`: x unscoped, not a global, not yet bound in the innermost frame (varmap_add succeeds); poll not
+   cancelled.  The statement succeeds, appends exactly ONE node to the graph, that node has exactly the configured
+   debug attributes (and no edges), no other node changes, and x is bound to it. *)
+Theorem strict_node_stmt_debug_attrs : forall {rx} t fl cfg glob (regexes : list rx) find call fuel le name vl vtext l s p l',
+  cfg_distinct cfg -> match_available cfg (le_match le) (le_full le) ->
+  snd (poll_step L_exec_stmt p) = false ->
+  globals_get glob name = None ->
+  varmap_add (s_locals s) name (VGraph (N.of_nat (length (s_graph s)))) false = inl l' ->
+  exec_stmt t fl cfg glob regexes find call (S fuel) le (SNode (VarU name vl) vtext l) s p =
+  Ok (tt, {| s_graph := s_graph s ++ [ {| g_attrs := node_dbg_attrs cfg vtext vl (first_full_match (le_match le) (le_full le)); g_edges := [] |} ];
+             s_locals := l'; s_scoped := s_scoped s; s_params := s_params s |},
+      fst (poll_step L_exec_stmt p)).
+Proof. intros rx. exact (@strict_node_stmt_unscoped rx). Qed.
+
+(* strict `node v` for ANY variable (scoped included), as an equation: the statement IS the binding of v — which may fail,
+   e.g. DuplicateVariable — run in the state whose graph has exactly that one decorated node more *)
+Theorem strict_node_stmt_debug_attrs_any_variable : forall {rx} t fl cfg glob (regexes : list rx) find call fuel le v vtext l s p,
+  cfg_distinct cfg -> match_available cfg (le_match le) (le_full le) ->
+  snd (poll_step L_exec_stmt p) = false ->
+  exec_stmt t fl cfg glob regexes find call (S fuel) le (SNode v vtext l) s p =
+  var_add t fl glob call fuel le v (VGraph (N.of_nat (length (s_graph s)))) false
+    (sg s (s_graph s ++ [ {| g_attrs := node_dbg_attrs cfg vtext (variable_loc v) (first_full_match (le_match le) (le_full le)); g_edges := [] |} ]))
+    (fst (poll_step L_exec_stmt p)).
+Proof. intros rx. exact (@strict_node_stmt_eq rx). Qed.
+
+(* lazy `node x` (execution phase; node statements are not deferred): same node, x bound to a new thunk holding it *)
+Theorem lazy_node_stmt_debug_attrs : forall {rx} t fl cfg glob (regexes : list rx) find call fuel le name vl vtext l s p l',
+  cfg_distinct cfg -> match_available cfg (ll_match le) (ll_full le) ->
+  snd (poll_step L_exec_stmt p) = false ->
+  globals_get glob name = None ->
+  varmap_add (l_locals s) name (LVar (N.of_nat (length (l_store s)))) false = inl l' ->
+  lexec_stmt t fl cfg glob regexes find call (S fuel) le (SNode (VarU name vl) vtext l) s p =
+  Ok (tt, {| l_graph := l_graph s ++ [ {| g_attrs := node_dbg_attrs cfg vtext vl (first_full_match (ll_match le) (ll_full le)); g_edges := [] |} ];
+             l_locals := l';
+             l_store := l_store s ++ [ {| th_state := TUnforced (LValue (VGraph (N.of_nat (length (l_graph s))))); th_dbg := ll_ctx le |} ];
+             l_scoped := l_scoped s; l_edges := l_edges s; l_attrs := l_attrs s; l_prints := l_prints s;
+             l_params := l_params s; l_prev := l_prev s |},
+      fst (poll_step L_exec_stmt p)).
+Proof. intros rx. exact (@lazy_node_stmt_unscoped rx). Qed.
+
+Theorem lazy_node_stmt_debug_attrs_any_variable : forall {rx} t fl cfg glob (regexes : list rx) find call fuel le v vtext l s p,
+  cfg_distinct cfg -> match_available cfg (ll_match le) (ll_full le) ->
+  snd (poll_step L_exec_stmt p) = false ->
+  lexec_stmt t fl cfg glob regexes find call (S fuel) le (SNode v vtext l) s p =
+  lvar_add t fl glob call fuel le v (LValue (VGraph (N.of_nat (length (l_graph s))))) false
+    (lg s (l_graph s ++ [ {| g_attrs := node_dbg_attrs cfg vtext (variable_loc v) (first_full_match (ll_match le) (ll_full le)); g_edges := [] |} ]))
+    (fst (poll_step L_exec_stmt p)).
+Proof. intros rx. exact (@lazy_node_stmt_eq rx). Qed.
+
+(* strict `edge src -> snk` at location l, whose endpoints evaluate to graph nodes a and b (reaching state s2): the
+   statement succeeds; in the final graph the edge a -> b exists; if it existed before it keeps exactly the attributes it
+   had (behaviour after fix F8), if it is NEW its attributes are exactly edge_dbg_attrs cfg l; node a's own attributes,
+   all its other edges, all other nodes, the node count and the variables are unchanged. *)
+Theorem strict_edge_stmt_debug_attr : forall {rx} t fl cfg glob (regexes : list rx) find call fuel le src snk l s p a b s1 p1 s2 p2 nd,
+  snd (poll_step L_exec_stmt p) = false ->
+  eval t fl glob call fuel le src s (fst (poll_step L_exec_stmt p)) = Ok (VGraph a, s1, p1) ->
+  eval t fl glob call fuel le snk s1 p1 = Ok (VGraph b, s2, p2) ->
+  gnode_at (s_graph s2) a = Some nd -> edges_wf (g_edges nd) ->
+  exists s' nd', exec_stmt t fl cfg glob regexes find call (S fuel) le (SEdge src snk l) s p = Ok (tt, s', p2) /\
+    gnode_at (s_graph s') a = Some nd' /\ g_attrs nd' = g_attrs nd /\
+    edges_get b (g_edges nd') = Some (match edges_get b (g_edges nd) with Some old => old | None => edge_dbg_attrs cfg l end) /\
+    (forall x, x <> b -> edges_get x (g_edges nd') = edges_get x (g_edges nd)) /\
+    length (s_graph s') = length (s_graph s2) /\
+    (forall i, i <> a -> gnode_at (s_graph s') i = gnode_at (s_graph s2) i) /\
+    s_locals s' = s_locals s2 /\ s_scoped s' = s_scoped s2 /\ s_params s' = s_params s2.
+Proof. intros rx. exact (@strict_edge_stmt_lemma rx). Qed.
+
+(* lazy `edge`, execution phase: the graph is untouched; the deferred statement is appended to the pending edge statements
+   TOGETHER WITH the attributes a new edge will get: exactly edge_dbg_attrs cfg l *)
+Theorem lazy_edge_stmt_debug_attr : forall {rx} t fl cfg glob (regexes : list rx) find call fuel le src snk l s p a b s1 p1 s2 p2,
+  snd (poll_step L_exec_stmt p) = false ->
+  leval t fl glob call fuel le src s (fst (poll_step L_exec_stmt p)) = Ok (a, s1, p1) ->
+  leval t fl glob call fuel le snk s1 p1 = Ok (b, s2, p2) ->
+  exists s', lexec_stmt t fl cfg glob regexes find call (S fuel) le (SEdge src snk l) s p = Ok (tt, s', p2) /\
+    l_edges s' = l_edges s2 ++ [LSEdge a b (edge_dbg_attrs cfg l) (ll_ctx le)] /\
+    l_graph s' = l_graph s2 /\ l_attrs s' = l_attrs s2 /\ l_prints s' = l_prints s2 /\ l_store s' = l_store s2 /\
+    l_locals s' = l_locals s2 /\ l_scoped s' = l_scoped s2 /\ l_params s' = l_params s2 /\ l_prev s' = l_prev s2.
+Proof. intros rx. exact (@lazy_edge_stmt_exec_lemma rx). Qed.
+
+(* lazy `edge`, evaluation phase: evaluating the deferred statement LSEdge src snk ea dbg (ea = the attributes recorded
+   above) whose endpoints evaluate to a and b: an existing edge keeps exactly its attributes, a NEW edge gets exactly ea;
+   nothing else in the graph changes *)
+Theorem lazy_edge_stmt_eval_debug_attr : forall t fl call fuel src snk ea dbg s p a b s1 p1 s2 p2 nd,
+  snd (poll_step L_eval_stmt p) = false ->
+  eval_as_gnode t fl call fuel src s (fst (poll_step L_eval_stmt p)) = Ok (a, s1, p1) ->
+  eval_as_gnode t fl call fuel snk s1 p1 = Ok (b, s2, p2) ->
+  gnode_at (l_graph s2) a = Some nd -> edges_wf (g_edges nd) ->
+  exists s' nd', eval_lstmt t fl call fuel (LSEdge src snk ea dbg) s p = Ok (tt, s', p2) /\
+    gnode_at (l_graph s') a = Some nd' /\ g_attrs nd' = g_attrs nd /\
+    edges_get b (g_edges nd') = Some (match edges_get b (g_edges nd) with Some old => old | None => ea end) /\
+    (forall x, x <> b -> edges_get x (g_edges nd') = edges_get x (g_edges nd)) /\
+    length (l_graph s') = length (l_graph s2) /\
+    (forall i, i <> a -> gnode_at (l_graph s') i = gnode_at (l_graph s2) i).
+Proof. exact lazy_edge_stmt_eval_lemma. Qed.
+
+(* composition with loaded_node_text (Props/C20disp.v): for a file produced by the LOADER, the text a `node` statement
+   writes into the variable-name attribute is the Display text of its variable.  PARTIAL: stated for the strict
+   interpreter and an unscoped variable (the other three combinations follow in the same way from the _any_variable
+   equations above); the statement must occur in the loaded file (file_stmts, any depth). *)
+From TSG Require Model.Parser Model.Loader Proofs.LoadedFile.
+From TSG Require Import Model.AstDisplay.
+Theorem loaded_node_stmt_records_variable_text_partial : forall {rx} X q lfuel text fl pats,
+  Loader.load X q lfuel text = Loader.LdOk fl pats ->
+  forall name vl vtext l, In (SNode (VarU name vl) vtext l) (file_stmts fl) ->
+  forall t cfg glob (regexes : list rx) find call fuel le s p l',
+  cfg_distinct cfg -> match_available cfg (le_match le) (le_full le) ->
+  snd (poll_step L_exec_stmt p) = false ->
+  globals_get glob name = None ->
+  varmap_add (s_locals s) name (VGraph (N.of_nat (length (s_graph s)))) false = inl l' ->
+  exec_stmt t fl cfg glob regexes find call (S fuel) le (SNode (VarU name vl) vtext l) s p =
+  Ok (tt, {| s_graph := s_graph s ++ [ {| g_attrs := node_dbg_attrs cfg (display_variable (dpenv_of (Parser.x_print X)) (VarU name vl)) vl
+                                                        (first_full_match (le_match le) (le_full le)); g_edges := [] |} ];
+             s_locals := l'; s_scoped := s_scoped s; s_params := s_params s |},
+      fst (poll_step L_exec_stmt p)).
+Proof.
+  intros rx X q lfuel text fl pats Hload name vl vtext l Hin t cfg glob regexes find call fuel le s p l' Hd Hm Hp Hg Hv.
+  rewrite <- (LoadedFile.loaded_node_text_lemma X q lfuel text fl pats Hload _ _ _ Hin).
+  exact (strict_node_stmt_debug_attrs t fl cfg glob regexes find call fuel le name vl vtext l s p l' Hd Hm Hp Hg Hv).
+Qed.
+
+(* non-vacuity of the statement-level theorems: all three attributes configured; `node x` (x at line 2 column 3, match
+   node 7) on the empty graph, and `edge x -> y` at (3, 0) between two existing nodes: a new edge gets the location, the
+   same statement again leaves it alone *)
+Definition c15_cfg : config := {| c_loc_attr := Some [108]; c_var_attr := Some [118]; c_match_attr := Some [109] |}.
+Definition c15_fl : file := {| f_globals := []; f_inherited := []; f_shorthands := []; f_stanzas := [] |}.
+Definition c15_t : tree := {| t_src := []; t_nodes := [] |}.
+Definition c15_le : lenv := {| le_match := [(0, [7; 8])]; le_full := 0; le_caps := []; le_ctx := {| sc_stmt := (0, 0); sc_stanza := (0, 0); sc_node := 7 |} |}.
+Definition c15_s2 (es : edges) : sstate :=
+  {| s_graph := [ {| g_attrs := []; g_edges := es |}; new_gnode ];
+     s_locals := [[([120], (VGraph 0, false)); ([121], (VGraph 1, false))]]; s_scoped := []; s_params := [] |}.
+Lemma c15_cfg_distinct : cfg_distinct c15_cfg.
+Proof. repeat split; intros a b Ha Hb; inversion Ha; inversion Hb; subst; discriminate. Qed.
+Example c15_stmt_nonvacuous :
+  exec_stmt c15_t c15_fl c15_cfg [] (@nil unit) (fun _ _ => None) (stdlib_call (fun _ _ _ => None) c15_t) 2 c15_le
+    (SNode (VarU [120] (1, 2)) [120] (1, 0)) (sinit []) (polls0 None) =
+  Ok (tt, {| s_graph := [ {| g_attrs := [([118], VStr [120]); ([108], VStr (loc_text (1, 2))); ([109], VSyn 7)]; g_edges := [] |} ];
+             s_locals := [[([120], (VGraph 0, false))]]; s_scoped := []; s_params := [] |}, fst (poll_step L_exec_stmt (polls0 None))) /\
+  (forall es, es = [] \/ es = [(1, [([107], VInt 5)])] ->
+   exists s' nd', exec_stmt c15_t c15_fl c15_cfg [] (@nil unit) (fun _ _ => None) (stdlib_call (fun _ _ _ => None) c15_t) 2 c15_le
+      (SEdge (EUnscoped [120] (3, 0)) (EUnscoped [121] (3, 5)) (3, 0)) (c15_s2 es) (polls0 None) = Ok (tt, s', fst (poll_step L_exec_stmt (polls0 None))) /\
+      gnode_at (s_graph s') 0 = Some nd' /\
+      edges_get 1 (g_edges nd') = Some (match es with [] => [([108], VStr (loc_text (3, 0)))] | _ => [([107], VInt 5)] end)).
+Proof.
+  split.
+  - apply (strict_node_stmt_debug_attrs c15_t c15_fl c15_cfg [] (@nil unit) (fun _ _ => None) (stdlib_call (fun _ _ _ => None) c15_t) 1 c15_le
+             [120] (1, 2) [120] (1, 0) (sinit []) (polls0 None) [[([120], (VGraph 0, false))]] c15_cfg_distinct).
+    + right. discriminate.
+    + reflexivity.
+    + reflexivity.
+    + reflexivity.
+  - intros es Hes.
+    destruct (strict_edge_stmt_debug_attr c15_t c15_fl c15_cfg [] (@nil unit) (fun _ _ => None) (stdlib_call (fun _ _ _ => None) c15_t) 1 c15_le
+                (EUnscoped [120] (3, 0)) (EUnscoped [121] (3, 5)) (3, 0) (c15_s2 es) (polls0 None) 0 1
+                (c15_s2 es) (fst (poll_step L_exec_stmt (polls0 None))) (c15_s2 es) (fst (poll_step L_exec_stmt (polls0 None)))
+                {| g_attrs := []; g_edges := es |}) as (s' & nd' & E & Hn & _ & He & _).
+    + reflexivity.
+    + reflexivity.
+    + reflexivity.
+    + reflexivity.
+    + destruct Hes as [->| ->]; repeat constructor.
+    + exists s', nd'. split; [exact E|]. split; [exact Hn|]. rewrite He. destruct Hes as [->| ->]; reflexivity.
+Qed.
